@@ -91,6 +91,7 @@ ViaOf(fr) ==
 (* `at`: the statement the main frame is executing when the failure occurs *)
 AtOf(m) == IF m.fr[1].ptr >= 1 /\ m.fr[1].ptr <= Len(m.code) THEN m.code[m.fr[1].ptr].p ELSE 0
 Fail(m, p)     == [m EXCEPT !.res = [k |-> "fail", p |-> p, via |-> ViaOf(m.fr), at |-> AtOf(m)]]
+FailIn(m, p, callp) == [m EXCEPT !.res = [k |-> "fail", p |-> p, via |-> << callp >> \o ViaOf(m.fr), at |-> AtOf(m)]]
 Panic(m, site) == [m EXCEPT !.res = [k |-> "panic", site |-> site]]
 Unmod(m)       == [m EXCEPT !.res = [k |-> "unm"]]
 
@@ -183,11 +184,11 @@ HookReceive(m, h, e) ==   \* m: machine whose top is hook frame h; e: callee res
   IN CASE h.hook = "map" /\ h.tk = "list" -> adv(Append(h.acc, e.v))
        [] h.hook = "map" /\ h.tk = "tuple" ->
             IF e.v.t # "list" THEN adv(h.acc)
-            ELSE IF Len(e.v.es) # 2 THEN Fail(m, e.p)
-            ELSE IF e.v.es[1].t # "str" THEN Fail(m, e.p)
+            ELSE IF Len(e.v.es) # 2 THEN FailIn(m, e.p, h.p)           \* at what the callback returned, VIA the map expression
+            ELSE IF e.v.es[1].t # "str" THEN FailIn(m, e.p, h.p)
             ELSE adv(Append(h.acc, Fld(e.v.es[1].s, e.v.es[2])))
        [] h.hook = "map" /\ h.tk = "str" ->
-            IF e.v.t = "str" THEN adv(h.acc \o e.v.s) ELSE Fail(m, e.p)
+            IF e.v.t = "str" THEN adv(h.acc \o e.v.s) ELSE FailIn(m, e.p, h.p)
        [] h.hook = "filter" ->
             IF e.v.t = "null" \/ (e.v.t = "bool" /\ ~e.v.b) THEN adv(h.acc) ELSE adv(Append(h.acc, item))
        [] h.hook = "reduce" -> adv(e)
